@@ -1597,7 +1597,7 @@ class CodedKern(Kern):
         :returns: New name made of original + tag + suffix
         :rtype: str
         '''
-        if original.endswith(suffix):
+        if original.lower().endswith(suffix.lower()):
             return original[:-len(suffix)] + tag + suffix
         return original + tag + suffix
 
